@@ -114,7 +114,7 @@ def run(rep, pid, tier, seed, what):
                           replay={'kind': 'obligation', 'obligation': o['name'], 'function': fn, 'solver_output': o.get('detail')}, nfi=True)
     rep.trusted = ['pyvc VC generator and the lowering of the Python subset (DESIGN.md 3)', 'z3 5.1 / z3 4.8.12 / cvc5 1.0.3',
                    'builtin container contracts (list/set/dict/OrderedDict) as axiomatised in pyvc/logic.py and pyvc/se.py',
-                   'hook contracts of the stock NamespaceManager listener as stated in specs/ir.py (callback)']
+                   'hook contracts of the stock NamespaceManager listener as stated in specs/ir.py (callback): for the ten add/remove hooks and the three dictionary hooks (keys other than .NS) they are proved against the real code in suite ns (C10: raise nothing but ValueError, remove hooks never raise, nothing but the name tables written); the create_* hooks and policy switches are assumed']
     rep.assumptions = [
         'integers are mathematical; assert statements execute (no -O)',
         'single-threaded; listeners do not mutate IR structure or call back into mutators',
